@@ -10,11 +10,11 @@ CLAIMED = {
     "C01": ("CBMC's memory-safety/UB instrumentation (bounds, pointer validity incl. dangling/NULL, pointer overflow, signed overflow, shifts, division, double free) over the real parseFrame and every handler chain, derive_session_event, lltd_esp32_handle_frame and the automata steps, with the frame as arbitrary bytes in an MTU-sized heap object and the interface record as an arbitrary valid pre-state (one inductive step = frame sequences of any length). Bounded in observation-list length, MTU set and unwindings, all stated in the evidence.",
             "frame classes split by unreachable-handler stubs (split asserted); MTU 576 quick (+1500, 9216 thorough); payload copy of QueryLargeTlv via the port-memcpy contract; one known finding (classifier station scan) with an excluding variant that must pass.", "5/C01"),
     "C02": ("byte-level decoder asserted inside the transmit stub for every frame each class can send (EtherType, version, reserved, real source, opcode set, exact per-opcode length, Hello chain positional), send-count bound per class, and a two-world determinism query per class (independent fresh memory, universally quantified byte index).",
-            "Hello structure rests on the positional oracle (a legal re-ordering of properties would need the oracle updated); MTU 576 except *_symmtu queries.", "5/C02"),
+            "Hello structure is decided by the positional oracle; if only positional conditions fail the driver runs the order-agnostic decoder (about 13 min) before reporting, so a legal re-ordering is not an alarm; MTU 576 except *_symmtu and the boundary-MTU model queries (60-63, 92-94, 100); hidden static state and unknown record fields start arbitrary.", "5/C02"),
     "C03": ("Discover class through real parseFrame/answerHello from an arbitrary valid record: accepted => exactly one Hello with every header / Hello-header byte asserted against the Discover's bytes; rejected => silence; generation stored per service (sweep query).",
             "hostname/SSID length concrete per query; acceptance rule from C05.", "5/C03"),
     "C04": ("positional TLV oracle over the Hello built from a fully symbolic attribute set (all getters failing independently), both byte orders (goto-cc --big-endian), name lengths swept by the driver (6x6 boundary pairs quick, full 41x41 grid thorough); Linux port getters over a symbolic network_interface_t.",
-            "name lengths are case-split, not symbolic; failed getters leave values unconstrained; getifaddrs/gethostname-based Linux getters not encoded.", "5/C04"),
+            "name lengths are case-split, not symbolic; the value emitted for a failed getter is only required to be determined (two-world query); getifaddrs/gethostname-based Linux getters not encoded.", "5/C04"),
     "C05": ("real parseFrame pre-step and ToS/opcode switch with recording handler stubs for all 256x256 (ToS,opcode) pairs in the states 'no mapper' and 'mapper active': step rules on the mapper identity; Reset and everything-else classes with real code. Histories follow by induction over the rules.",
             "commands Emit/Query/QueryLargeTlv covered under the property's domain restriction in their class queries.", "5/C05"),
     "C06": ("assume/guarantee decomposition over real code: descriptor walk (real parseFrame+parseEmit, recording sendProbeMsg stub, declared count 0..0xFFFF, every descriptor slot symbolic, pointer checks on) + real sendProbeMsg alone (ordered sleep/send events, ACK) + undecomposed path for n<=3 (12 thorough).",
@@ -24,7 +24,7 @@ CLAIMED = {
     "C08": ("QueryLargeTlv class with symbolic type, offset 0..65535, data size 0..32768, MTU 576 and symbolic [576,9216]: per-call chunk relation (length, more flag, progress, containment, seq, empty cases, seq 0 ignored) and ownership; reassembly by induction on the offset.",
             "payload bytes via the port-memcpy contract (source pointer+offset, destination, length asserted; regions readable/writable); hardware id contract NUL-free UCS-2LE.", "5/C08"),
     "C09": ("relational two-world queries per frame class: (A) Reset leaves a record equal to a fresh one up to stale mapper addresses; (B) records differing only in those stale addresses give identical output and equivalent post-records (induction => continuations of any length); plus direct (history.Reset.c) vs (fresh.c) with the record created by the real code.",
-            "continuation classes: Emit <= 3 descriptors, Hello name lengths 33/7, K=2; same platform data in both worlds.", "5/C09"),
+            "the relation lets fields differ that are dead at the start of every request (stale mapper addresses while no mapper is active, stored sequence/generation numbers); continuation classes: Emit <= 3 descriptors, Hello name lengths 33/7, K=2 (3 thorough); same platform data in both worlds.", "5/C09"),
     "C10": ("the 32 bytes the real sendProbeMsg of responder A transmits for a descriptor aimed at B are delivered into B's receive buffer and processed by the real parseFrame/parseProbe of B (second context), then B's QueryResp is decoded: observation with A as source present.",
             "one descriptor per query (Emit = independent calls, C06); B's own list arbitrary without this pair.", "5/C10"),
     "C11": ("real derive_session_event (no LLTD_TESTING) on a symbolic 576-byte (1500 thorough) Discover/Reset/Hello/other frame, symbolic own address, symbolic session table: reference computed from raw bytes at 6-byte stride, position as a symbolic index.",
@@ -40,7 +40,7 @@ CLAIMED = {
     "C16": ("each session-table operation (add, find, remove, clear, completion update, expiry tick) from an arbitrary 16-entry table satisfying the representation invariant, post-state compared with a declarative specification and the invariant re-established => operation sequences of any length and any number of keys.",
             "one operation per query; invariant R is the induction hypothesis.", "5/C16"),
     "C17": ("sequential: two-world step per class (other interface's record registered before/after vs absent; other record untouched; sends and platform calls carry the receiving context). Threads: goto-instrument --isr models the second interface's thread as an interrupt at every access of the real code to shared core objects.",
-            "thread clause bounded to two interfaces and one pre-emption; known finding: first frames racing lose a registration (lltd_state_for_iface).", "5/C17"),
+            "thread clause bounded to two interfaces and one pre-emption, at registry accesses (--isr) or inside a platform call (two further models); oracles are relational (same result as without pre-emption / without the other interface); known finding: first frames racing lose a registration (lltd_state_for_iface).", "5/C17"),
     "C18": ("class queries re-run with a symbolic fault schedule (i-th allocation / send fails iff flagged, every getter incl. MTU/address/icon/name fails independently) under full safety instrumentation + allocation ledger + record invariant; constructors under failing allocation.",
             "record exists before the faulty step; 'Reset afterwards == fresh' via invariant + C09.", "5/C18"),
     "C19": ("allocation ledger of the verification port asserted after every class step (live = receive buffer + record + observations + cached icon), per-step growth <= 1 observation, after Reset only the record, and existence of a cap (no growth with the counter at its maximum).",
